@@ -106,7 +106,7 @@ def go_test(pid, pkg, run, env=None, timeout=900, race=False, extra_args=None, t
     ov = overlay_file(pid)
     # go.mod / go.sum of the tree are never touched: -mod=mod may rewrite the module file, so it is
     # given a private copy
-    md = outdir(pid, "gomod")
+    md = outdir(pid, "gomod", "%d-%d" % (os.getpid(), time.time_ns() % 1000000007))   # private per invocation
     shutil.copy(os.path.join(REPO, "go.mod"), os.path.join(md, "go.mod"))
     shutil.copy(os.path.join(REPO, "go.sum"), os.path.join(md, "go.sum"))
     cmd = ["go", "test", "-vet=off", "-count=1", "-tags", tags, "-overlay", ov,
